@@ -5,6 +5,7 @@ CONSTANTS
   FIX_BOUNDARY = TRUE
   FIX_REKEY = TRUE
   FIX_MOVED = FALSE
+  FIX_RMALL = TRUE
   FIX_ENOENT = FALSE
 INVARIANTS TrueNames NoSpuriousError RemoveWorks Covered OwnTreeOnly
 CHECK_DEADLOCK FALSE
